@@ -21,6 +21,11 @@ TRIAGE = [
     (r'^hor-ltl-(delete-LtlHorizon\.visit(Strong)?Next|plus-visit(Strong)?Next|minmax-visit(Strong)?Next)$', EQ, 'LtlHorizon.visitNext/visitStrongNext are overridden by StlHorizon since the sampling-period repair'),
     (r'^revert-fix-210c934$', EQ, 'the LtlHorizon handlers this commit repaired are overridden by StlHorizon since the sampling-period repair'),
     (r'^seeded-C01-j-sliding-extremum-pops-equal$', None, 'outside the interpreted idioms: a monotonic-queue sliding extremum (candidates kept in a deque, evicted by value). Seven checks stop with exit 2 (window not in an interpreted idiom) -- no verdict; deciding it needs the queue invariant, not index arithmetic'),
+    (r'^seeded-C01-o-nan-fix-opposite-infinities$', None, 'outside the interpreted idioms: a conditional on the operand values (isinf) inside a pointwise term; seven checks stop with exit 2, none claims a violation -- deciding it needs the values'),
+    (r'^seeded-C01-g-shared-constant-folded-negation$', None, 'no verdict: the parser pops an entry of the name table in a form the name-table reader does not interpret (C12 exit 2); the in-place folding of a shared Constant is not reported by another rule since round 11'),
+    (r'^seeded-C04-e-long-window-running-shortcut$', None, 'no verdict: the bypass path of the dense bounded handler tests `end >= <last time-stamp>`, a form R-FORWARD does not read any more after the round-11 lowering (C04, C16, C18, C19 stop with exit 2)'),
+    (r'^seeded-C06-n-vacuity-from-robustness-isinf$', None, 'no verdict: the IA offline variant no longer calls the shared predicate base (C06 exit 2: the variant is not in the canonical single-result form)'),
+    (r'^seeded-C16-k-van-herk-block-length$', None, 'outside the interpreted idioms: van Herk block decomposition of the sliding extremum (seven checks exit 2: the sample loop does not run over all samples)'),
     (r'^past-(stl|ltl)-delete-', EQ, 'for C03: the other pastifier class in the MRO still handles the node (LTL style delays with a chain of prev: same values for i >= h)'),
 ]
 out = {}
